@@ -455,7 +455,7 @@ impl FreezerFilesBuilder {
 
                 // slipped back into an earlier head-file
                 if new_index.file_id != head_index.file_id {
-                    let head_file_name = helper::file_name(head_index.file_id);
+                    let head_file_name = helper::file_name(new_index.file_id);
                     let (new_head, size) = self.open_append(self.file_path.join(head_file_name))?;
                     head = new_head;
                     head_size = size;
